@@ -309,6 +309,9 @@ extern int hwloc__object_cpusets_compare_first(hwloc_obj_t obj1, hwloc_obj_t obj
 extern void hwloc__reorder_children(hwloc_obj_t parent);
 extern void hwloc__reorder_memory_children(hwloc_obj_t parent);
 
+/* Recompute what the insertion of Groups after load invalidates (Group sets, total_memory, symmetric_subtree, Group depths). */
+extern void hwloc__groups_inserted(hwloc_topology_t topology);
+
 extern void hwloc_topology_setup_defaults(struct hwloc_topology *topology);
 extern void hwloc_topology_clear(struct hwloc_topology *topology);
 
